@@ -6,13 +6,27 @@ ABI = ("instantiate", "execute", "query", "migrate", "reply", "sudo", "ibc_chann
 
 
 def entry_points(facts, crate):
-    """ABI entry points of a contract crate (in its contract / ibc modules)"""
+    """ABI entry points of a contract crate: free functions with an ABI name whose first parameter is Deps / DepsMut, in whatever
+    module they live (the export macro leaves no trace in host builds, so name + signature identify them).  A second function
+    with the same ABI name elsewhere in the crate is kept under "<name>@<module>" so that no rule overlooks it."""
     out = {}
+    extra = []
     for b in facts.bodies.values():
         if b.crate == crate and b.kind == "fn":
             parts = b.path.split("::")
-            if len(parts) == 3 and parts[1] in ("contract", "ibc") and parts[2] in ABI:
+            if parts[-1] not in ABI or "<" in b.path or not b.argc:
+                continue
+            if not b.locals[1]["ty"].lstrip("&").startswith("cosmwasm_std::Deps"):
+                continue
+            if len(parts) == 3 and parts[1] in ("contract", "ibc"):
                 out[parts[2]] = b.path
+            else:
+                extra.append((parts[-1], "::".join(parts[1:-1]), b.path))
+    for name, mod, path in sorted(extra):
+        if name not in out:
+            out[name] = path
+        else:
+            out["%s@%s" % (name, mod)] = path
     return out
 
 
@@ -376,6 +390,37 @@ def order_facts(conds, before=None):
             out.append((("lit", o[1]), t, False, c))
             out.append((t, ("lit", o[1]), False, c))
     return out
+
+
+def config_as_configured(ctx, rule, crate, item, fields, label):
+    """instantiate stores the named fields of the configuration exactly as the message gave them (no narrowing, rescaling or
+    substitution on the way into storage): everything later is decided against the stored copy"""
+    eps = entry_points(ctx.facts, crate)
+    n = 0
+    if "instantiate" not in eps:
+        ctx.ob(rule, "%s/anchor:instantiate" % label, False, detail="%s has no instantiate" % crate, trivial=True)
+        return
+    for p in ctx.summarise(eps["instantiate"]):
+        if p.is_err():
+            continue
+        for e in p.effects:
+            if e.kind == "write" and e.item == item and e.op != "remove":
+                n += 1
+                for f in fields:
+                    got = field_of(e.value, f)
+                    ctx.ob(rule, "%s/instantiate/%s stored as configured" % (label, f), got == ("field", ("param", "msg"), f), sites=[e.site],
+                           detail="%s: configuration field %s is stored as %s, not msg.%s" % (crate, f, show(got)[:140] if got else None, f),
+                           sample={f: show(got)[:120] if got else None})
+    ctx.floor(rule, "%s configuration writes in instantiate" % label, n, 1)
+
+
+def version_literal(t):
+    """the semver literal a term denotes: "0.13.0".parse()? / Version::parse("0.13.0")? / Version::new(0, 13, 0) -> "0.13.0" """
+    if t[0] == "vfield" and t[2] == "Ok" and t[1][0] == "call" and t[1][1].split("::")[-1] == "parse" and t[1][2] and t[1][2][-1][0] == "str":
+        return t[1][2][-1][1]
+    if t[0] == "call" and t[1].endswith("Version::new") and len(t[2]) == 3 and all(x[0] == "lit" for x in t[2]):
+        return "%d.%d.%d" % tuple(x[1] for x in t[2])
+    return None
 
 
 # ------------------------------------------------------------------------ responses
